@@ -57,7 +57,7 @@ prop("C12",
      cosim_ignore="order,stamp",
      smoke=True)
 prop("C13",
-     ["C13_no_panic", "C13_runs_never_panic", "C13_slow_assertions_hold", "C13_second_half_commutes", "C13_fine_grained_runs_linearise", "C13_fine_grained_states_are_reachable", "C13_second_half_reports_what_was_announced", "C13_fine_witness"],
+     ["C13_no_panic", "C13_runs_never_panic", "C13_slow_assertions_hold", "C13_second_half_commutes", "C13_fine_grained_runs_linearise", "C13_fine_grained_states_are_reachable", "C13_second_half_reports_what_was_announced", "C13_cleanup_last_handle_is_alone", "C13_entry_held_by_its_only_handle_is_unreachable", "C13_lockfree_steps_release_nothing", "C13_fine_witness"],
      ["C13."],
      [fam("mix","H",1200), fam("mix","L",1200), fam("nolimit","L",800), fam("evict","H",800), fam("expiry","L",800), fam("stream","H",800), fam("pool","P",600), fam("dfs-cancel","H",3000), fam("dfs-stream","L",3000), fam("fine-mix","H",1500), fam("fine-mix","L",1500), fam("fine-evict","L",1000), fam("scale-stream","L",2,"monitor"), fam("wide","H",600), fam("wide-evict","L",600), fam("fine-wide","L",600)],
      [fam("mix","H",40000), fam("mix","L",40000), fam("nolimit","L",20000), fam("evict","H",20000), fam("evict","L",20000), fam("expiry","L",20000), fam("stream","H",20000), fam("stream","L",20000), fam("pool","P",20000),
